@@ -19,6 +19,7 @@ import (
 	"fmt"
 	"math/rand"
 	"os"
+	"runtime"
 	"strconv"
 	"sync"
 	"testing"
@@ -26,6 +27,7 @@ import (
 	"github.com/lni/dragonboat/v4/client"
 	"github.com/lni/dragonboat/v4/config"
 	"github.com/lni/dragonboat/v4/internal/rsm"
+	"github.com/lni/goutils/random"
 	pb "github.com/lni/dragonboat/v4/raftpb"
 	sm "github.com/lni/dragonboat/v4/statemachine"
 )
@@ -497,6 +499,88 @@ func (s *rqSim) run(steps int) {
 		s.poll(id)
 	}
 	s.emit(rqEv{Op: "Final"})
+	s.stress()
+}
+
+// stress: real goroutines. Proposers and readers call the client-facing entry points of fresh
+// tables while another goroutine stops the shard (the close sequence of node.close()). When
+// everybody has returned, every request that was accepted (no error) must have its terminal
+// result on its channel: Terminated at the latest. Nothing here depends on timing: the check is
+// made after all goroutines have finished.
+func (s *rqSim) stress() {
+	s.setup()
+	var wg sync.WaitGroup
+	var mu sync.Mutex
+	accepted := []*RequestState{}
+	kinds := []string{}
+	start := make(chan struct{})
+	nprop, nread := 4, 3
+	for g := 0; g < nprop; g++ {
+		wg.Add(1)
+		go func(g int) {
+			defer wg.Done()
+			<-start
+			sess := client.NewNoOPSession(1, random.LockGuardedRand)
+			for k := 0; k < 6; k++ {
+				r, err := s.props.propose(sess, []byte("x"), 50)
+				if err == nil {
+					mu.Lock()
+					accepted = append(accepted, r)
+					kinds = append(kinds, "proposal")
+					mu.Unlock()
+				}
+				// the step worker drains the queue now and then
+				if k%2 == g%2 {
+					s.propQ.get(false)
+				}
+			}
+		}(g)
+	}
+	for g := 0; g < nread; g++ {
+		wg.Add(1)
+		go func() {
+			defer wg.Done()
+			<-start
+			for k := 0; k < 6; k++ {
+				r, err := s.reads.read(50)
+				if err == nil {
+					mu.Lock()
+					accepted = append(accepted, r)
+					kinds = append(kinds, "read")
+					mu.Unlock()
+				}
+			}
+		}()
+	}
+	wg.Add(1)
+	go func() {
+		defer wg.Done()
+		<-start
+		for i := 0; i < s.rng.Intn(40); i++ {
+			runtime.Gosched()
+		}
+		s.reads.close()
+		s.props.close()
+		s.cc.close()
+		s.ss.close()
+		s.lq.close()
+	}()
+	close(start)
+	wg.Wait()
+	// what the step worker still held when the shard stopped is handed over and dropped as in
+	// node.handleReadIndex / processDroppedReadIndexes after close
+	if held := s.readQ.get(); len(held) > 0 {
+		s.reads.add(s.reads.nextCtx(), held)
+	}
+	missing := map[string]int{}
+	for i, r := range accepted {
+		select {
+		case <-r.CompletedC:
+		default:
+			missing[kinds[i]]++
+		}
+	}
+	s.emit(rqEv{Op: "Stress", N: uint64(len(accepted)), Val: uint64(missing["proposal"]), To: uint64(missing["read"])})
 }
 
 func TestVerifRqsim(t *testing.T) {
